@@ -1,7 +1,7 @@
 SPECIFICATION Spec
 CONSTANTS
   Hours24 = {0, 1, 2, 3, 4, 5, 6, 7, 8, 9, 10, 11, 12, 13, 14, 15, 16, 17, 18, 19, 20, 21, 22, 23}
-  Minutes = {0, 1, 5, 30, 45, 59}
+  Minutes = {0, 1, 5, 11, 15, 30, 45, 59}
   Seconds = {0, 30, 59}
   Hours12 = {1, 2, 3, 4, 5, 6, 7, 8, 9, 10, 11, 12}
   RefDay = 737128
